@@ -1223,6 +1223,30 @@ pub mod dropwrite {
     }
 }
 
+// ---------------------------------------------------------------- R-GUARD.region
+pub mod region {
+    use super::*;
+    pub struct Pool {
+        pub base: *mut u8,
+        pub memory_size: usize,
+    }
+    impl Pool {
+        pub fn ok_ptr_to_offset(&self, ptr: *mut u8) -> Result<u32> {
+            let base = self.base as usize;
+            let addr = ptr as usize;
+            if addr < base || addr >= base + self.memory_size {
+                return Err(ZiporaError("outside"));
+            }
+            Ok((addr - base) as u32)
+        }
+        pub fn bad_ptr_to_offset(&self, ptr: *mut u8) -> Result<u32> {
+            let base = self.base as usize;
+            let addr = ptr as usize;
+            addr.checked_sub(base).and_then(|o| u32::try_from(o).ok()).ok_or(ZiporaError("outside"))
+        }
+    }
+}
+
 // ---------------------------------------------------------------- R-VARIANT
 pub mod variant {
     pub enum Storage {
